@@ -14,16 +14,17 @@ import random
 import shutil
 import tempfile
 
+from .. import actcodec as AC
 from .. import core, par
 from ..flows import LogCapture, canon_action, canon_flow, compile_flow_sheet
 from ..gen import flowjson as FJ
 from ..gen import sheets as G
 
 MANIFEST = dict(
-    text="Proof: Lean theorem roundtrip_equiv_of_cert (validated bisimulation certificate ⇒ equal traces for every contact input sequence at the observation level of C04's statement: action content, operands, tests, arguments, test order, category names, timeouts, destinations) applied by the driver to each original flow and the flow recompiled from the REAL files written by flows_to_sheets (csv/xlsx × strip_uuids × numbered); plus per-flow checks of uuid / node-grouping preservation without --strip_uuids. Universal over flows only per explored flow (exporter model toRows not yet in Lean; C04_full visible).",
+    text="Proof: (1) Lean theorem roundtrip_equiv_of_cert (validated bisimulation certificate ⇒ equal traces for every contact input sequence at the observation level of C04's statement: action content, operands, tests, arguments, test order, category names, timeouts, destinations) applied by the driver to each original flow and the flow recompiled from the REAL files written by flows_to_sheets (csv/xlsx × strip_uuids × numbered); plus per-flow checks of uuid / node-grouping preservation without --strip_uuids. (2) 'same actions with the same content' is proved universally on a Lean model of the action codec (Rpft/ActionCodec.lean: toFields = Action.get_row_model_fields of every action class + FlowRowModel validation; ofFields = FlowParser._get_row_action / _get_row_node): theorem action_roundtrip — for EVERY action inside the explicit decidable predicate Expressible (unbounded texts, attachment / quick-reply / variable lists, header and amount dictionaries) the exported row fields compile back to exactly that one action, content equal up to the invented action / templating-instance uuid; expressible_iff_roundtrip — Expressible is EXACTLY the set of actions that come back intact (so no clause can be dropped), with a kernel-checked negative witness per clause (needs_…) replayed on the real code; action_roundtrip_merged — the same for rows merged into an existing node (compiled by _get_row_action alone); constants tied by tables_agree_actcodec. exported_row_ids_unique (both id modes). Universal over whole flows only per explored flow (C04_full visible).",
     ref="§5 C04",
-    note="Trusts: Lean kernel; certificate search untrusted; harness canonicaliser; Python mirror of the exporter DFS (gen/flowjson.py order_stable) defines the OrderStable part of the domain. Domain `Expressible` (gen/flowjson.py docstring). Known findings F-C04-a (unconnected conditional categories vanish), F-C04-b (test order at joins), F-C04-d (webhook headers), F-C04-e (group-split category names) are exercised deterministically outside the main stream.",
-    technique="Lean 4 proof of certificate soundness + verified checker on original vs recompiled-from-real-files flow",
+    note="Trusts: Lean kernel; certificate search untrusted; harness canonicalisers (flows.canon_flow, actcodec.canon_action); Python mirror of the exporter DFS (gen/flowjson.py order_stable) defines the OrderStable part of the flow domain; CPython float(repr(x)) == x (a float amount is carried as its repr text); the cell layer between row model and sheet is C07's model — here it is exercised on the real code only (direct oracle through the real RowDataSheet / SheetParser, single row and shared sheet). Action codec model is tied on generated actions of every kind (mostly expressible + one-clause-broken + pass-through types) and on generated row fields (valid and malformed) with ASCII-cased names and ASCII digits. Flow domain `Expressible` (gen/flowjson.py docstring); action domain `ActionCodec.Expressible`. Known findings exercised deterministically outside the main streams: F-C04-a (unconnected conditional categories vanish), F-C04-b (test order at joins), F-C04-d (webhook headers), F-C04-e (group-split category names), F-C04-f (webhook body next to a message_text column), F-C04-g (only the first group of a multi-group action is compiled), F-C04-h (field key regenerated from the field name), F-C04-i (set_contact_channel exported under message_text), F-C04-j (templating variables padded to the longest list of the sheet).",
+    technique="Lean 4 proof of certificate soundness + verified checker on original vs recompiled-from-real-files flow; Lean 4 proof of the action codec round trip (all expressible actions) + differential tie and direct oracle on the real export / compile code",
 )
 
 LVL = {"catNames": True, "resultName": False}
@@ -330,24 +331,74 @@ def _expressible_except_order(doc):
         FJ.order_stable = saved
 
 
+def run_action_codec(ck: core.Check, quick: bool):
+    """the action codec (Rpft/ActionCodec.lean, theorem action_roundtrip): B = model vs REAL
+    get_row_model_fields / _get_row_action / _get_row_node on generated actions of every kind and on
+    generated row fields; C = every action inside `Expressible` comes back from its own row on the real
+    code (row model, --strip_uuids row, real cell layer alone and in a shared sheet)."""
+    AC.known_streams(ck)
+    AC.witness_stream(ck)
+    n_act, n_rows = (260, 220) if quick else (1300, 1100)
+    jobs = [(ck.rng.randrange(1 << 60), n_act, n_rows, False) for _ in range(par.NPROC)]
+    res = par.pmap(AC.worker, jobs)
+    ties = 0
+    for r in res:
+        for k, v in r["stats"].items():
+            ck.count(k, int(v))
+        for key in r["keys"]:
+            ck.case("act:" + key, nontrivial=True)
+        if r["sample"] and len(ck.samples) < 4:
+            ck.samples.append(r["sample"])
+        for t in r["ties"]:
+            ck.tie_break(t.pop("what"), t)
+        ties += r["n_ties"]
+        for v in r["viol"]:
+            ck.violation(v.pop("what"), v)
+    if (ck.tie_breaks or not ck.lean.ok) and not ck.violations:
+        # failing-input search: the direct oracle alone on a thorough-size stream (fresh seeds) and on
+        # the actions the tie disagreed on (already judged above when they are expressible)
+        ck.search_ran = True
+        jobs = [(ck.rng.randrange(1 << 60), 1300, 0, True) for _ in range(par.NPROC)]
+        for r in par.pmap(AC.worker, jobs):
+            ck.count("search.actions", len(r["keys"]))
+            for v in r["viol"]:
+                ck.violation(v.pop("what"), v)
+    kinds = ["send_msg", "set_contact_field", "set_contact_prop", "add_contact_groups", "remove_contact_groups", "set_run_result",
+             "enter_flow", "call_webhook", "transfer_airtime", "add_contact_urn"]
+    for k in kinds:
+        if ck.strata.get(f"act.{k}.expressible", 0) < 20 or ck.strata.get(f"act.{k}.outside", 0) < 5:
+            raise core.Infra(f"action generator stratum {k} under-represented: {ck.strata.get(f'act.{k}.expressible', 0)} / {ck.strata.get(f'act.{k}.outside', 0)}")
+    for need in ("oracle.cells.single_row.ok", "oracle.cells.shared_sheet.ok", "oracle.strip.ok"):
+        if not ck.violations and ck.strata.get(need, 0) < 50:
+            raise core.Infra(f"oracle stratum {need} under-represented: {ck.strata.get(need, 0)}")
+
+
 def run(ck: core.Check):
     ck.lean = core.lean_step("C04", thorough=(ck.tier == "thorough"))
     if not core.DRIVER_BIN.exists():
         raise core.Infra("driver not built:\n" + ck.lean.log[-2000:])
     quick = ck.tier == "quick"
     ck.rule = (
+        "(a) actions of every kind from a seeded structured generator (62 % inside `Expressible`, 33 % with exactly one clause broken, 5 % pass-through types; "
+        "texts with | ; \\ , quotes, newlines, padding, non-ASCII; values at the 640 / 36 limits) and row fields as a sheet author writes them (every row type, "
+        "malformed pair lists / amounts / methods): model vs real export and compile code; every expressible action must come back from its own row "
+        "(row model, --strip_uuids row, real cell layer alone and in a shared sheet); a case = one action, distinct = distinct canonical JSON.  (b) "
         "flow definitions from two seeded streams — foreign-style exports built in the export schema (all node/router/action kinds the "
         "sheet vocabulary covers; trees, joins, cycles, self loops; texts with | ; \\ , quotes, newlines, non-ASCII) and outputs of the real "
         "compiler on random core sheets — filtered to `Expressible`; each written by the real flows_to_sheets to csv/xlsx × strip × numbered "
         "(2 of 8 configurations per flow in quick, all 8 in thorough) and recompiled; a case = one expressible flow; distinct = distinct JSON"
     )
-    ck.assumptions = ["tablib / csv / openpyxl byte formats (library code) are exercised, not modelled"]
+    ck.assumptions = ["tablib / csv / openpyxl byte formats (library code) are exercised, not modelled",
+                      "float(repr(x)) == x in CPython: a float airtime amount is carried by the model as its repr text",
+                      "the action codec model lower-cases ASCII only (generate_field_key) and reads ASCII digits only (int()): generated names / amounts stay inside"]
     ck.partial_gap = ["C04_full (all expressible flows) not proved on a Lean exporter/compiler model; decided per explored flow by the verified checker",
+                      "action_roundtrip is per action at the row-model level (FlowRowModel fields); the cell layer (row model ↔ cells, C07) and node grouping / edges (C17 exporter model, C01 compiler model) are not composed with it in Lean",
                       "result names of non-wait routers and UI data are not compared (not in the statement's list)"]
     workdir = tempfile.mkdtemp(prefix="c04_")
     try:
         drv = core.Driver()
         known_streams(drv, ck, workdir)
+        run_action_codec(ck, quick)
         n_total = 1920 if quick else 9600
         maxnodes = 14 if quick else 22
         nshards = par.NPROC * (1 if quick else 2)
@@ -378,6 +429,15 @@ def replay(path):
     rec = json.load(open(path))
     print(json.dumps(rec, indent=1, ensure_ascii=False)[:6000])
     rp = rec.get("replay", {})
+    if rp.get("action") is not None:
+        (res, val), fields, row = AC.real_roundtrip(rp["action"])
+        print("original (canonical):", AC.dumps(AC.canon_action(rp["action"])))
+        print("row fields:", AC.dumps(fields) if fields is not None else None)
+        print("comes back as:", res, AC.dumps(val) if res == "ok" else val)
+        if row is not None and rp.get("headers"):
+            back, headers = AC.through_cells([row], bool(rp.get("strip_uuids")))
+            print("through the exported sheet row:", headers, AC.real_of_fields(back[0]) if not isinstance(back[0], str) else back[0])
+        return 0
     if rp.get("document"):
         wd = tempfile.mkdtemp(prefix="c04r_")
         try:
